@@ -54,12 +54,15 @@ inductive Err
   | connectFail     -- HappyConnOpener: ERR_CONNECT_FAIL / ERR_GATEWAY_FAILURE (503)
   | cannotForward500 -- useDestinations: ERR_CANNOT_FORWARD, 500
   | cannotForward502 -- noteDestinationsEnd: ERR_CANNOT_FORWARD, 502
+  | cannotForward503 -- noteConnection: ERR_CANNOT_FORWARD, 503 (socket closed while the callback was queued)
+  | selection       -- noteDestinationsEnd(selectionError)
   | pinned          -- BorrowPinnedConnection threw
 deriving Repr, DecidableEq
 
 inductive Phase
   | idle                      -- no transportWait, not transporting (before the first destination or waiting for more)
   | opening (cur : Option Nat) -- transportWait: HappyConnOpener at work; `cur` = path of its in-progress connect
+  | answering (d : Nat) (reused : Bool) -- transportWait: the opener called sendSuccess; the noteConnection callback is queued
   | sent (d : Nat) (reused : Bool) -- waitingForDispatched: the request was dispatched on a connection to `d`
   | stopped                   -- stopAndDestroy
 deriving Repr, DecidableEq
@@ -107,12 +110,13 @@ inductive Ev
   | notePinned (ok : Bool)             -- noteDestination(nil) → usePinned; ok = BorrowPinnedConnection succeeded
   | noteDestinationsEnd
   | connectDone (ok : Bool)            -- Comm::ConnOpener answered the opener's in-progress attempt
-  | connGone                           -- noteConnection found the just-opened/reused socket already closed
+  | noteConnection (open_ : Bool)      -- the queued FwdState::noteConnection callback fires; open_ = the socket is still open
   | tick                               -- the forward_timeout budget is used up from now on
   | shutdown                           -- shutting_down becomes true
   | storeAbort                         -- HandleStoreAbort
   | bodyConsumed                       -- the dispatched job consumed request body bytes
   | replyHeaders (status : Nat)        -- the dispatched job stored a reply (haveParsedReplyHeaders)
+  | bufferedTooMuch                    -- StoreEntry::write cleared ENTRY_FWD_HDR_WAIT (read-ahead gap exceeded)
   | serverFailed (f : Fail) (dontRetry : Bool) -- the job ended: [dontRetry(true)], [fail(err)], then serverClosed / handleUnregisteredServerEnd
   | serverComplete (keep : Bool)       -- the job called complete(); keep = the connection went back to the pconn pool
 deriving Repr, DecidableEq
@@ -171,55 +175,172 @@ def dispatch (s : St) (d : Nat) (reused : Bool) : St × List Out :=
   ({ s with race := (if reused then .possible else .impossible), connectedOkay := true, phase := .sent d reused },
    [.dispatch d reused])
 
-mutual
-/-- FwdState::retryOrBail -/
-def retryOrBail (c : Cfg) (r : Req) (s : St) : St × List Out :=
-  if checkRetry c r s then useDestinations c r s else stop s
-termination_by 2 * s.dests.length + 3
-decreasing_by all_goals simp_wf; all_goals omega
+/-- HappyConnOpener::sendFailure → FwdState::noteConnection with answer.error:
+`flags.dont_retry = true; fail(error); retryOrBail()`, and `checkRetry` is false once `dont_retry` is set
+(lemma `noteConnectionError_eq` in RetryLemmas: this equals `retryOrBail` on that state). -/
+def noteConnectionError (s : St) : St × List Out :=
+  stop (fail { s with dontRetry := true } .connectFail)
+
+/-- HappyConnOpener::checkForNewConnection with no attempt in progress (maybeOpenPrimeConnection, startConnecting,
+reuseOldConnection / PconnPool::popStored, openFreshConnection; ranOutOfTimeOrAttempts and an exhausted, finalized
+destination list end the job through sendFailure) -/
+def openerKick (c : Cfg) (s : St) : St × List Out :=
+  if exhaustedTries c s || s.timeUp then noteConnectionError s
+  else match s.dests with
+    | [] => if s.subscribed then ({ s with phase := .opening none }, []) else noteConnectionError s
+    | d :: rest =>
+      let s := { s with dests := rest }
+      if s.allowPconn && s.pool.contains d then
+        let s := { s with pool := s.pool.erase d }
+        if s.retriableOpener then
+          -- reuseOldConnection: ++n_tries; sendSuccess(reused)
+          ({ s with nTries := s.nTries + 1, phase := .answering d true }, [])
+        else
+          -- popStored(keepOpen = false) closes the idle connection; openFreshConnection
+          ({ s with phase := .opening (some d) }, [.closeIdle d, .connect d])
+      else
+        ({ s with phase := .opening (some d) }, [.connect d])
+
+/-- FwdState::connectStart: a new HappyConnOpener (setRetriable, allowPersistent) -/
+def connectStart (c : Cfg) (r : Req) (s : St) : St × List Out :=
+  openerKick c { s with err := none, openerError := false,
+                        retriableOpener := checkRetriable r || c.pconnForNonretriable,
+                        allowPconn := decide (s.race ≠ .happened),
+                        phase := .opening none }
 
 /-- FwdState::useDestinations -/
 def useDestinations (c : Cfg) (r : Req) (s : St) : St × List Out :=
   if !s.dests.isEmpty then connectStart c r s
   else if s.subscribed then ({ s with phase := .idle }, [])
   else stop (if s.err.isNone then fail s .cannotForward500 else s)
-termination_by 2 * s.dests.length + 2
-decreasing_by all_goals simp_wf; all_goals omega
 
-/-- FwdState::connectStart: a new HappyConnOpener -/
-def connectStart (c : Cfg) (r : Req) (s : St) : St × List Out :=
-  openerKick c r { s with err := none, openerError := false,
-                          retriableOpener := checkRetriable r || c.pconnForNonretriable,
-                          allowPconn := decide (s.race ≠ .happened),
-                          phase := .opening none }
-termination_by 2 * s.dests.length + 1
-decreasing_by all_goals simp_wf; all_goals omega
+/-- FwdState::retryOrBail -/
+def retryOrBail (c : Cfg) (r : Req) (s : St) : St × List Out :=
+  if checkRetry c r s then useDestinations c r s else stop s
 
-/-- HappyConnOpener::checkForNewConnection with no attempt in progress -/
-def openerKick (c : Cfg) (r : Req) (s : St) : St × List Out :=
-  if exhaustedTries c s || s.timeUp then noteConnectionError c r s
-  else match hd : s.dests with
-    | [] => if s.subscribed then ({ s with phase := .opening none }, []) else noteConnectionError c r s
-    | d :: rest =>
-      let s := { s with dests := rest }
-      if s.allowPconn && s.pool.contains d then
-        let s := { s with pool := s.pool.erase d }
-        if s.retriableOpener then
-          -- reuseOldConnection: ++n_tries; sendSuccess(reused) → noteConnection
-          let s := { s with nTries := s.nTries + 1, receipt := some d }
-          dispatch s d true
-        else
-          ({ s with phase := .opening (some d) }, [.closeIdle d, .connect d])
-      else
-        ({ s with phase := .opening (some d) }, [.connect d])
-termination_by 2 * s.dests.length
-decreasing_by all_goals simp_wf; all_goals omega
+/-- HappyConnOpener::handleConnOpenerAnswer -/
+def connectDone (c : Cfg) (s : St) (ok : Bool) : St × List Out :=
+  match s.phase with
+  | .opening (some d) =>
+    let s := { s with nTries := s.nTries + 1 }
+    if ok then ({ s with phase := .answering d false }, [])
+    else openerKick c { s with openerError := true, phase := .opening none }
+  | _ => (s, [])
 
-/-- HappyConnOpener::sendFailure → FwdState::noteConnection with answer.error -/
-def noteConnectionError (c : Cfg) (r : Req) (s : St) : St × List Out :=
-  -- flags.dont_retry = true; fail(error); retryOrBail() — which cannot retry any more
-  stop (fail { s with dontRetry := true } .connectFail)
-termination_by 0
-end
+/-- FwdState::noteConnection for a successful answer (`updateAttempts` is already folded into `nTries`) -/
+def noteConnection (c : Cfg) (r : Req) (s : St) (open_ : Bool) : St × List Out :=
+  match s.phase with
+  | .answering d reused =>
+    if open_ then
+      dispatch { s with receipt := some d } d reused
+    else
+      -- "conn was closed while waiting for noteConnection": retries are allowed only for reused connections
+      let s := { s with receipt := (if reused then some d else none), phase := .idle }
+      retryOrBail c r (fail s .cannotForward503)
+  | _ => (s, [])
+
+/-- FwdState::noteDestination(path) -/
+def noteDestination (c : Cfg) (r : Req) (s : St) (d : Nat) : St × List Out :=
+  if !s.subscribed then (s, []) else
+  let s := { s with destinationsFound := true, dests := s.dests ++ [d] }
+  match s.phase with
+  | .opening none => openerKick c s        -- notifyConnOpener → noteCandidatesChange
+  | .opening (some _) => (s, [])
+  | .answering _ _ => (s, [])
+  | .sent _ _ => (s, [])                   -- transporting(): keep the path for a re-forward
+  | .idle => useDestinations c r s
+  | .stopped => (s, [])
+
+/-- FwdState::noteDestination(nil) → usePinned -/
+def usePinned (s : St) (ok : Bool) : St × List Out :=
+  if s.subscribed && s.phase = .idle && s.dests.isEmpty && !s.connectedOkay && !s.destinationsFound then
+    let s := { s with destinationsFound := true }
+    if ok then dispatch { s with nTries := s.nTries + 1, pinned := true } 0 true
+    else stop (fail s .pinned)
+  else (s, [])
+
+/-- FwdState::noteDestinationsEnd -/
+def noteDestinationsEnd (c : Cfg) (s : St) : St × List Out :=
+  if !s.subscribed then (s, []) else
+  let s := { s with subscribed := false }
+  if !s.destinationsFound then
+    match s.phase with
+    | .idle => stop (fail s .selection)
+    | _ => (s, [])
+  else match s.phase with
+    | .opening none => openerKick c s
+    | .opening (some _) => (s, [])
+    | .answering _ _ => (s, [])
+    | .sent _ _ => (s, [])
+    | .idle => stop (if s.err.isNone then fail s .cannotForward502 else s)
+    | .stopped => (s, [])
+
+/-- the dispatched job ended without calling complete(): [dontRetry(true)] [fail(err)] closeServer →
+serverClosed / handleUnregisteredServerEnd → retryOrBail -/
+def serverEnd (c : Cfg) (r : Req) (s : St) (f : Fail) (dr : Bool) : St × List Out :=
+  match s.phase with
+  | .sent _ _ =>
+    let s := { s with dontRetry := s.dontRetry || dr }
+    let s := match f with
+      | .zero => fail s .zeroSize
+      | .other => fail s .badGateway
+      | .silent => { s with receipt := none }
+    retryOrBail c r { s with phase := .idle }
+  | _ => (s, [])
+
+/-- FwdState::complete (called by Client::completeForwarding) -/
+def complete (c : Cfg) (r : Req) (s : St) (keep : Bool) : St × List Out :=
+  match s.phase with
+  | .sent d _ =>
+    -- HttpStateData::processReplyBody pooled the connection first (COMPLETE_PERSISTENT_MSG, not pinned)
+    let s := if keep && !s.pinned then { s with pool := d :: s.pool } else s
+    if reforward c r s then
+      -- unregister, destinationReceipt = nil, entry->reset() (keeps ENTRY_FWD_HDR_WAIT), useDestinations
+      useDestinations c r { s with receipt := none, entryEmpty := true, status := 0, phase := .idle }
+    else stop s
+  | _ => (s, [])
+
+/-- one event -/
+def step (c : Cfg) (r : Req) (s : St) : Ev → St × List Out
+  | .noteDestination d => if s.phase = .stopped then (s, []) else noteDestination c r s d
+  | .notePinned ok => usePinned s ok
+  | .noteDestinationsEnd => if s.phase = .stopped then (s, []) else noteDestinationsEnd c s
+  | .connectDone ok => connectDone c s ok
+  | .noteConnection o => noteConnection c r s o
+  | .tick => ({ s with timeUp := true }, [])
+  | .shutdown => ({ s with shuttingDown := true }, [])
+  | .storeAbort => if s.phase = .stopped then (s, []) else stop s
+  | .bodyConsumed =>
+    match s.phase with
+    | .sent _ _ => ({ s with nibbled := s.nibbled || r.hasBody }, [])
+    | _ => (s, [])
+  | .replyHeaders st =>
+    match s.phase with
+    | .sent _ _ => ({ s with entryEmpty := false, status := st, hdrWait := s.hdrWait || isReforwardableStatus c st }, [])
+    | _ => (s, [])
+  | .bufferedTooMuch =>
+    match s.phase with
+    | .sent _ _ => ({ s with hdrWait := false }, [])
+    | _ => (s, [])
+  | .serverFailed f dr => serverEnd c r s f dr
+  | .serverComplete keep => complete c r s keep
+
+/-- a whole history: all outputs in order -/
+def run (c : Cfg) (r : Req) : St → List Ev → St × List Out
+  | s, [] => (s, [])
+  | s, e :: es =>
+    let (s1, o1) := step c r s e
+    let (s2, o2) := run c r s1 es
+    (s2, o1 ++ o2)
+
+def isDispatch : Out → Bool
+  | .dispatch _ _ => true
+  | _ => false
+
+/-- how many times the request was handed to a server connection -/
+def dispatches (o : List Out) : Nat := o.countP isDispatch
+
+/-- the initial FwdState (constructor), with the idle connections the pool holds for this host -/
+def init (pool : List Nat) : St := { pool := pool }
 
 end SquidModel.Fwd.Retry
